@@ -455,7 +455,7 @@ type engine struct{}
 
 func (engine) ID() string { return "C03" }
 func (engine) CoqHeader() string {
-	return "From Eino Require Import Base.Util Model.TaskMgr Model.Confluence Corr.C03.\nOpen Scope N_scope.\n"
+	return "From Eino Require Import Base.Util Model.TaskMgr Model.Confluence Model.EagerSkip Corr.C03.\nOpen Scope N_scope.\n"
 }
 func (engine) CoqCaseType() string { return "ccase" }
 
